@@ -14,6 +14,7 @@ Definition show_ev (e : ev) : string :=
   | ENotify i d => "D" ++ show_nat i ++ "." ++ show_nat d
   | EFired i d ok => "F" ++ show_nat i ++ "." ++ show_nat d ++ (if ok then "+" else "-")
   | ELost i => "L" ++ show_nat i
+  | EGone => "G"
   | ENetPause => "NP"
   | ENetResume => "NR"
   | EProdPause i => "PP" ++ show_nat i
@@ -25,8 +26,8 @@ Definition show_ev (e : ev) : string :=
 Definition show_op_log (l : list ev) : string :=
   match l with [] => "-" | _ => String.concat "," (map show_ev l) end.
 
-(** case = (eager read limit, request stream, history) *)
-Definition run_show (c : N * list reqspec * list op) : string :=
-  let '(eager, reqs, ops) := c in
-  let '(s, log) := run eager reqs st0 ops in
+(** case = (eager read limit, synchronous-loss transport?, request stream, history) *)
+Definition run_show (c : N * bool * list reqspec * list op) : string :=
+  let '(eager, sync, reqs, ops) := c in
+  let '(s, log) := run eager sync reqs st0 ops in
   String.concat " " (map show_op_log log) ++ " |" ++ show_bool (s_closing s).
